@@ -67,7 +67,7 @@ type Rec struct {
 
 var dKeys = []string{"testdb:json/a", "testdb:json/b", "testdb:struct/c", "testdb:raw/d", "testdb:missing/e", "testdb:json/new1", "testdb:json/new2", "nodb:x", "testdb:", "bad key"}
 var dQueries = []string{"query testdb:", "query testdb:json/", "query testdb:json/ where S sameas alpha", "query testdb:raw", "query nodb:", "query testdb: where (", "nonsense", "query testdb:json/ where N exists", ""}
-var dBodies = []string{`J{"N":"w1","S":"alpha"}`, `J{"N":"w2","S":"beta","X":{"y":[1,2,3]}}`, `J{}`, `J[1,2]`, `J"str"`, `Jnot json`, `J`, ``, `C` + "\xa1aNbw3", `{"S":"inserted"}`, `{"S":{"deep":1}}`, `[]`, `{"":1}`, `5`}
+var dBodies = []string{`J{"N":"w1","S":"alpha"}`, `J{"N":"w2","S":"beta","X":{"y":[1,2,3]}}`, `J{}`, `J[1,2]`, `J"str"`, `Jnot json`, `J`, ``, `C` + "\xa1aNbw3", `{"S":"inserted"}`, `{"S":{"deep":1}}`, `[]`, `{"":1}`, `5`, `J{"N":"w|4","S":"al|pha|"}`, `J{"N":"|","S":"alpha"}`}
 var dGaps = []time.Duration{0, time.Millisecond, 5 * time.Millisecond}
 
 func genC13(rng *rand.Rand, tier string) *DBPlan {
@@ -134,6 +134,7 @@ type bgWrite struct {
 	Key      string
 	Inv, Ret uint64
 	OK       bool
+	Del      bool
 }
 
 type c13State struct {
@@ -270,7 +271,10 @@ func execC13(p *DBPlan, rc *simkit.RunCtx) {
 				time.Sleep(d)
 			}
 			if w.Delete {
-				_ = priv.Delete(dKeys[w.Key])
+				bw := bgWrite{Key: dKeys[w.Key], Inv: simrt.Seq(), Del: true}
+				bw.OK = priv.Delete(dKeys[w.Key]) == nil
+				bw.Ret = simrt.Seq()
+				s.writes = append(s.writes, bw)
 			} else if w.Key != 3 {
 				bw := bgWrite{Key: dKeys[w.Key], Inv: simrt.Seq()}
 				bw.OK = priv.Put(wj(dKeys[w.Key], fmt.Sprintf("bg%d", i), "alpha")) == nil
@@ -443,9 +447,17 @@ func checkC13(p *DBPlan, rc *simkit.RunCtx) {
 						for _, r := range reps {
 							// (hashmap hands out the stored object: a put that is read from the feed after a later
 							// delete is announced as del, so any notification for the key counts)
-							if (r.Type == "upd" || r.Type == "new" || r.Type == "del" || r.Type == "ok") && r.Key == w.Key && r.Seq > w.Inv {
+							if (r.Type == "upd" || r.Type == "new" || r.Type == "del" || r.Type == "ok") && r.Key == w.Key && r.Seq > w.Inv && !w.Del {
 								n++
 							}
+							// a delete is announced as del (the deleted object stays deleted: a later put stores a new one)
+							if w.Del && r.Type == "del" && r.Key == w.Key && r.Seq > w.Inv {
+								n++
+							}
+						}
+						if n == 0 && w.Del {
+							rc.Fail("C13.notification-lost", "a matching delete made while a qsub was active was not notified as del", fmt.Sprintf("conn %d op %s (%q): delete of %s", ci, op, req.Key, w.Key))
+							return
 						}
 						if n == 0 {
 							rc.Fail("C13.notification-lost", "a matching change made while a qsub was active was neither part of the query replies nor notified", fmt.Sprintf("conn %d op %s (%q): write to %s", ci, op, req.Key, w.Key))
